@@ -10,6 +10,7 @@
 use kanidmd_lib::entry::{Entry, EntryInit, EntryNew};
 use kanidmd_lib::prelude::*;
 use kanidmd_lib::testkit::{setup_test, TestConfiguration};
+use kanidmd_lib::valueset::{ValueSetIname, ValueSetSpn, ValueSetUtf8};
 use kanidmd_lib::verif_hooks::c22::revive_uuid;
 use kvh::*;
 use std::collections::BTreeMap;
@@ -98,11 +99,15 @@ fn apply_op(w: &mut QueryServerWriteTransaction, op: &Op) -> Result<(), Operatio
             &ModifyList::new_purge_and_set(Attribute::Name, Value::new_iname(new)),
         ),
         Op::SetSpn { id, spn } => {
-            let mut mods = vec![Modify::Purged(Attribute::Spn)];
-            if let Some(v) = spn_value(spn) {
-                mods.push(Modify::Present(Attribute::Spn, v));
-            }
-            w.internal_modify_uuid(user_uuid(*id), &ModifyList::new_list(mods))
+            // `Set` replaces the whole value set and is not syntax-checked by ModifyList::validate,
+            // so it is the way a caller can put a non-SPN value into `spn` on a modify.
+            let m = match spn {
+                SpnIn::None => Modify::Purged(Attribute::Spn),
+                SpnIn::Spn(n, d) => Modify::Set(Attribute::Spn, ValueSetSpn::new((n.clone(), d.clone()))),
+                SpnIn::Iname(n) => Modify::Set(Attribute::Spn, ValueSetIname::new(n)),
+                SpnIn::Utf8(s) => Modify::Set(Attribute::Spn, ValueSetUtf8::new(s.clone())),
+            };
+            w.internal_modify_uuid(user_uuid(*id), &ModifyList::new_list(vec![m]))
         }
         Op::PurgeName { id } => {
             w.internal_modify_uuid(user_uuid(*id), &ModifyList::new_purge(Attribute::Name))
@@ -128,7 +133,7 @@ async fn observe(qs: &QueryServer) -> Obs {
         .map(|vs| vs.to_proto_string_clone_iter().collect())
         .unwrap_or_default();
     assert!(dom_db.len() == 1, "domain_name must be single valued: {:?}", dom_db);
-    let f = filter_all!(f_or!([
+    let f = kanidmd_lib::filter_all!(kanidmd_lib::f_or!([
         f_eq(Attribute::Class, EntryClass::Group.into()),
         f_eq(Attribute::Class, EntryClass::Account.into())
     ]));
@@ -154,6 +159,12 @@ async fn observe(qs: &QueryServer) -> Obs {
     Obs { dom_mem, dom_db: dom_db.into_iter().next().unwrap_or_default(), ents }
 }
 
+/// A byte string as `(T "..."%string)`, decoded by `KV.C22.Model.T` (printable ASCII only).
+fn cs(s: &str) -> String {
+    assert!(s.bytes().all(|b| (0x20..0x7f).contains(&b) && b != b'"'), "unprintable: {:?}", s);
+    format!("(T \"{}\"%string)", s)
+}
+
 fn c_kind(k: Kind) -> String {
     match k {
         Kind::Person => "KPerson".into(),
@@ -164,29 +175,29 @@ fn c_kind(k: Kind) -> String {
 fn c_spn_in(s: &SpnIn) -> String {
     match s {
         SpnIn::None => "SNone".into(),
-        SpnIn::Spn(n, d) => capp("SSpn", &[cstr(n), cstr(d)]),
-        SpnIn::Iname(n) => capp("SIname", &[cstr(n)]),
-        SpnIn::Utf8(s) => capp("SUtf8", &[cstr(s)]),
+        SpnIn::Spn(n, d) => capp("SSpn", &[cs(n), cs(d)]),
+        SpnIn::Iname(n) => capp("SIname", &[cs(n)]),
+        SpnIn::Utf8(s) => capp("SUtf8", &[cs(s)]),
     }
 }
 fn c_op(o: &Op) -> String {
     match o {
         Op::Create { id, kind, name, spn } => capp(
             "OCreate",
-            &[cn(*id), c_kind(*kind), copt(name, |n| cstr(n)), c_spn_in(spn)],
+            &[cn(*id), c_kind(*kind), copt(name, |n| cs(n)), c_spn_in(spn)],
         ),
-        Op::Rename { id, new } => capp("ORename", &[cn(*id), cstr(new)]),
+        Op::Rename { id, new } => capp("ORename", &[cn(*id), cs(new)]),
         Op::SetSpn { id, spn } => capp("OSetSpn", &[cn(*id), c_spn_in(spn)]),
         Op::PurgeName { id } => capp("OPurgeName", &[cn(*id)]),
         Op::Delete { id } => capp("ODelete", &[cn(*id)]),
         Op::Revive { id } => capp("ORevive", &[cn(*id)]),
-        Op::Domain { d } => capp("ODomain", &[cstr(d)]),
+        Op::Domain { d } => capp("ODomain", &[cs(d)]),
     }
 }
 fn c_dent(d: &DEnt) -> String {
     capp(
         "DEnt",
-        &[cn(d.id), cbool(d.live), copt(&d.name, |n| cstr(n)), clist(&d.spn, |s| cstr(s))],
+        &[cn(d.id), cbool(d.live), copt(&d.name, |n| cs(n)), clist(&d.spn, |s| cs(s))],
     )
 }
 
@@ -194,6 +205,7 @@ struct Hist {
     dom0: String,
     init: Vec<DEnt>,
     steps: Vec<(Vec<Op>, bool, Vec<bool>, String, String, bool, Vec<DEnt>)>,
+    panics: u64,
 }
 
 fn number(obs: Obs, ids: &BTreeMap<Uuid, u64>, full: bool) -> Vec<DEnt> {
@@ -228,6 +240,7 @@ async fn run_history(txns: &[(Vec<Op>, bool)], full_every: bool) -> Hist {
     let dom0 = obs0.dom_mem.clone();
     let init = number(obs0, &ids, true);
     let mut steps = vec![];
+    let mut panics = 0u64;
     let ntx = txns.len();
     for (ti, (ops, commit)) in txns.iter().enumerate() {
         let mut w = qs.write(duration_from_epoch_now()).await.expect("write");
@@ -238,9 +251,16 @@ async fn run_history(txns: &[(Vec<Op>, bool)], full_every: bool) -> Hist {
             if matches!(op, Op::Domain { .. }) {
                 has_domain = true;
             }
-            let r = apply_op(&mut w, op);
-            res.push(r.is_ok());
-            if r.is_err() {
+            // an implementation panic (e.g. a debug_assert) is recorded as a failed op, not a crash
+            let ok = match std::panic::catch_unwind(std::panic::AssertUnwindSafe(|| apply_op(&mut w, op))) {
+                Ok(r) => r.is_ok(),
+                Err(_) => {
+                    panics += 1;
+                    false
+                }
+            };
+            res.push(ok);
+            if !ok {
                 all_ok = false;
                 break;
             }
@@ -250,14 +270,14 @@ async fn run_history(txns: &[(Vec<Op>, bool)], full_every: bool) -> Hist {
         } else {
             drop(w);
         }
-        let full = full_every || has_domain || ti + 1 == ntx;
+        let full = full_every || (has_domain && all_ok && *commit) || ti + 1 == ntx;
         let obs = observe(&qs).await;
         let dm = obs.dom_mem.clone();
         let dd = obs.dom_db.clone();
         let dump = number(obs, &ids, full);
         steps.push((ops.clone(), *commit, res, dm, dd, full, dump));
     }
-    Hist { dom0, init, steps }
+    Hist { dom0, init, steps, panics }
 }
 
 const NAMES: &[&str] = &[
@@ -273,6 +293,13 @@ const DOMAINS: &[&str] = &[
     "bad domain", "a@b.c",
 ];
 const FOREIGN: &[&str] = &["evil.org", "example.com", "new.example.com", "d2.test"];
+
+fn pick_name(rng: &mut Rng) -> String {
+    if rng.chance(1, 9) { rng.pick(&NAMES[10..]).to_string() } else { rng.pick(&NAMES[..10]).to_string() }
+}
+fn pick_domain(rng: &mut Rng) -> String {
+    if rng.chance(1, 10) { rng.pick(&DOMAINS[6..]).to_string() } else { rng.pick(&DOMAINS[..6]).to_string() }
+}
 
 fn gen_spn_in(rng: &mut Rng, named: bool) -> SpnIn {
     let k = rng.below(if named { 8 } else { 6 });
@@ -290,7 +317,7 @@ fn gen_spn_in(rng: &mut Rng, named: bool) -> SpnIn {
 fn main() {
     let args = parse_args();
     let mut rng = Rng::new(args.seed);
-    let mut sink = Sink::new(&args, "KV.C22.Model", 8);
+    let mut sink = Sink::new(&args, "KV.C22.Model", 4);
     sink.rule = "random histories of 5..12 (thorough ..24) write transactions of 1..3 ops each on a fresh real QueryServer: \
 create person/service account/group (names from a pool with case variants, invalid inames and built-in names; caller-supplied spn values), \
 rename, purge+set spn, delete, revive, danger_domain_rename (valid, same, invalid), 1 in 6 transactions dropped instead of committed; \
@@ -308,7 +335,7 @@ non-trivial = a committed domain rename that changed the domain while >=2 harnes
         let mut next_id = USER_BASE;
         let mut txns = vec![];
         for _ in 0..ntx {
-            let nops = rng.range(1, 3) as usize;
+            let nops = *rng.pick(&[1usize, 1, 1, 1, 2, 2, 2, 3]);
             let mut ops = vec![];
             for _ in 0..nops {
                 let have = next_id - USER_BASE;
@@ -320,15 +347,16 @@ non-trivial = a committed domain rename that changed the domain while >=2 harnes
                 let op = if k < 30 || have == 0 {
                     let kind = *rng.pick(&[Kind::Person, Kind::Service, Kind::Group, Kind::Group]);
                     let nameless = allow_nameless && rng.chance(1, 3);
-                    let name = if nameless { None } else { Some(rng.pick(NAMES).to_string()) };
+                    let kind = if nameless && rng.chance(3, 4) { Kind::Group } else { kind };
+                    let name = if nameless { None } else { Some(pick_name(&mut rng)) };
                     let spn = gen_spn_in(&mut rng, !nameless);
                     let id = next_id;
                     next_id += 1;
                     Op::Create { id, kind, name, spn }
                 } else if k < 52 {
-                    Op::Rename { id: pick_id(&mut rng), new: rng.pick(NAMES).to_string() }
+                    Op::Rename { id: pick_id(&mut rng), new: pick_name(&mut rng) }
                 } else if k < 70 {
-                    Op::Domain { d: rng.pick(DOMAINS).to_string() }
+                    Op::Domain { d: pick_domain(&mut rng) }
                 } else if k < 80 {
                     let id = pick_id(&mut rng);
                     let mut s = gen_spn_in(&mut rng, false);
@@ -356,6 +384,7 @@ non-trivial = a committed domain rename that changed the domain while >=2 harnes
         let mut prev_users = 0usize;
         let mut txt = format!("hist dom0={} builtins={}:", h.dom0, h.init.len());
         let mut c_steps = vec![];
+        sink.add_stat("implementation_panics", h.panics);
         for (ops, commit, res, dm, dd, full, dump) in &h.steps {
             let committed = *commit && res.iter().all(|b| *b);
             if committed && *dm != prev_dom && prev_users >= 2 {
@@ -396,15 +425,15 @@ non-trivial = a committed domain rename that changed the domain while >=2 harnes
                     clist(ops, c_op),
                     cbool(*commit),
                     clist(res, |b| cbool(*b)),
-                    cstr(dm),
-                    cstr(dd),
+                    cs(dm),
+                    cs(dd),
                     cbool(*full),
                     clist(dump, c_dent),
                 ],
             ));
         }
         sink.case(
-            capp("CHist", &[cstr(&h.dom0), clist(&h.init, c_dent), clist_s(&c_steps)]),
+            capp("CHist", &[cs(&h.dom0), clist(&h.init, c_dent), clist_s(&c_steps)]),
             txt,
             dom_changed_with_entries && ren_or_rev,
         );
